@@ -73,6 +73,12 @@ OpNewFromNumX(sl, re, neg, hi, mi, lo) == /\ sl \in Slots /\ LimbsOK(hi, mi, lo)
                                        /\ Ctor(sl, re, "_from_num_x", <<neg, hi, mi, lo>>, BigNumText(neg, hi, mi, lo))
 OpSprintfDX(sl, neg, hi, mi, lo) == /\ Live(sl) /\ LimbsOK(hi, mi, lo) /\ Mut(sl, "sprintf_d_x", <<neg, hi, mi, lo>>, TRUE, BigNumText(neg, hi, mi, lo))
 
+\* queries whose C-string argument is the receiver's own text from offset k (source inside the receiver)
+Sfx(s, k) == SubSeq(s, k + 1, Len(s))
+OpFindOwn(sl, k) == /\ Live(sl) /\ k \in 0 .. Len(Txt(sl)) /\ Qry(sl, "find_from_ptr_own", <<k>>, FindPos(Txt(sl), Sfx(Txt(sl), k)))
+OpCmpOwn(sl, kind, k, n) == /\ Live(sl) /\ k \in 0 .. Len(Txt(sl)) /\ NOK(kind, n)
+                            /\ Qry(sl, kind \o "_with_ptr_own", <<k>> \o KindArgs(kind, n), CmpKind(kind, Txt(sl), Sfx(Txt(sl), k), n))
+
 CtorStep(sl, o, re, g) ==
     \/ o = "" /\ OpNew(sl, re)
     \/ o = "_from_ptr" /\ OpNewFromPtr(sl, re, g[1])
@@ -158,7 +164,10 @@ TraceStep ==
              \/ o = kind /\ OpCmpObj(sl, kind, g[1])
              \/ o = kind \o "_self" /\ OpCmpSelf(sl, kind, g[1])
              \/ o = kind \o "_with_ptr_null" /\ OpCmpPtrNull(sl, kind, g[1])
-       \/ o = "to_num" /\ OpToNum(sl, g[1])
+       \/ o = "to_num" /\ (OpToNum(sl, g[1]) \/ OpToNumOver(sl, g[1]))
+       \/ o = "find_from_ptr_own" /\ OpFindOwn(sl, g[1])
+       \/ \E kind \in {"cmp", "casecmp"} : o = kind \o "_with_ptr_own" /\ OpCmpOwn(sl, kind, g[1], 0)
+       \/ \E kind \in {"ncmp", "ncasecmp"} : o = kind \o "_with_ptr_own" /\ OpCmpOwn(sl, kind, g[1], g[2])
        \/ o = "to_float" /\ OpToFloat(sl)
 TraceSpec == TraceInit /\ [][TraceStep]_<<vars, l>>
 \* accepted iff every line was consumed: diameter counts the initial state plus one state per line
